@@ -249,7 +249,8 @@ impl<'a> PathRun<'a> {
         };
         // a different number of fresh slots drawn beforehand: the classes' internal slot names, hence the hashes of the
         // stored shapes and the order in which the pending map hands them out, differ from path to path
-        for _ in 0..(self.nth % 5) * 3 { let _ = Slot::fresh(); }
+        // (not under the namings whose point is a user name that spells exactly the NEXT fresh slot)
+        if !self.nm.kind.starts_with("fresh-") { for _ in 0..(self.nth % 5) * 3 { let _ = Slot::fresh(); } }
         let mut eg: EGraph<T, N> = EGraph::default();
         let mut handles: Vec<(usize, AppliedId)> = Vec::new(); // (universe idx, invocation)
         let mut prev_obs: Option<ImplObs> = None;
@@ -303,9 +304,13 @@ impl<'a> PathRun<'a> {
             key.sort();
             let ea = self.pool_expr(a);
             let eb = self.pool_expr(b);
+            // every other path asserts the equation through the EARLIEST handles of its sides where the terms were inserted
+            // before (base terms, sides of earlier equations) instead of inserting the terms again
+            let old_a = if self.nth % 2 == 1 { handles.iter().find(|(u, _)| *u == ctx.pool_ui[a - 1]).map(|(_, h)| h.clone()) } else { None };
+            let old_b = if self.nth % 2 == 1 { handles.iter().find(|(u, _)| *u == ctx.pool_ui[b - 1]).map(|(_, h)| h.clone()) } else { None };
             let r = guard(|| {
-                let ia = add_x(&mut eg, ea);
-                let ib = add_x(&mut eg, eb);
+                let ia = match old_a { Some(h) => h, None => add_x(&mut eg, ea) };
+                let ib = match old_b { Some(h) => h, None => add_x(&mut eg, eb) };
                 eg.union(&ia, &ib);
                 (ia, ib)
             });
@@ -1166,6 +1171,11 @@ fn main() {
             let key = keys[j].clone();
             let kinds: Vec<&str> = if namings_mode == "all" {
                 NAMINGS.to_vec()
+            } else if namings_mode == "rotate+fresh" {
+                // the rotating naming plus the two under which a user name spells exactly the next fresh slot (capture)
+                let mut v = vec![NAMINGS[(j + seed) % NAMINGS.len()]];
+                for k in ["fresh-next", "fresh-lazy"] { if !v.contains(&k) { v.push(k); } }
+                v
             } else {
                 vec![NAMINGS[(j + seed) % NAMINGS.len()]]
             };
